@@ -114,6 +114,18 @@ func oracleC15(c *CCase) (*ev.Failure, cstats) {
 					return
 				}
 				yield(1)
+				if wk.Yield&(1<<13) != 0 {
+					// a first-level nested result that handed out second-level results is closed explicitly (documented
+					// to have no effect) before the top-level Close
+					for _, dt := range c.Def.Tags {
+						if dt.Nested != nil && dt.Tag > 0 {
+							if nr, nerr := res.NestedResult(dt.Tag); nerr == nil && nr != nil {
+								touchSecondLevel(nr, &c.Def, dt.Tag)
+								_ = nr.Close()
+							}
+						}
+					}
+				}
 				for qi, q := range wk.Queries {
 					got := evalReal(res, q)
 					want := exps[w][i].want[qi]
@@ -177,7 +189,7 @@ func genCCase(t *rapid.T) *CCase {
 	return c
 }
 
-const ruleC15 = "round = one shared lazyproto.Decoder (definition with nested parts, safe or fast mode, optional max buffer size, optional buffer filter {halving, constant 2, identity}) + G in {2,4,8,16,64} goroutines released by a barrier, each looping Decode -> run its queries (incl. NestedResult(s) paths) -> compare with the reference parse of ITS OWN input (expectations computed beforehand) -> Close, with rapid-chosen runtime.Gosched() injection points, GOMAXPROCS in {1,2,16}; the binary is built with -race and halts on the first race report; cold-start rounds: 8 (thorough 120) fresh processes in which the FIRST lazyproto calls of the process - Decode, every accessor of every field (fitting and misfitting, single and slice), NestedResults, Close - are made by 8 goroutines sharing one Decoder; " +
+const ruleC15 = "round = one shared lazyproto.Decoder (definition with nested parts, safe or fast mode, optional max buffer size, optional buffer filter {halving, constant 2, identity}) + G in {2,4,8,16,64} goroutines released by a barrier, each looping Decode -> run its queries (incl. NestedResult(s) paths) -> compare with the reference parse of ITS OWN input (expectations computed beforehand) -> Close (half of the goroutines first close, explicitly, every first-level nested result after it handed out second-level results), with rapid-chosen runtime.Gosched() injection points, GOMAXPROCS in {1,2,16}; the binary is built with -race and halts on the first race report; cold-start rounds: 8 (thorough 120) fresh processes in which the FIRST lazyproto calls of the process - Decode, every accessor of every field (fitting and misfitting, single and slice), NestedResults, Close - are made by 8 goroutines sharing one Decoder; " +
 	"non-trivial = an iteration during which >= 2 goroutines were between Decode and Close at once (atomic in-flight counter); such iterations are distinct by construction (round, goroutine, iteration)"
 
 func TestC15(t *testing.T) {
